@@ -152,6 +152,9 @@ def actor_main(root, aid, scripts, to_ctl, from_ctl, seed, compress):
 # -----------------------------------------------------------------------------
 # controller
 
+_TMPX = __import__("re").compile(r"thread-\d+-pid-\d+|/dev/shm/c11_[a-z0-9_]+")
+
+
 def _pclass(kind, rel):
     b = os.path.basename(rel or "")
     if b.startswith("output.pkl"):
@@ -269,7 +272,7 @@ def run_case(case):
         prio = {k: rng.random() for k in ents}
         change_points = sorted(rng.randrange(5, 400) for _ in range(3))
         interleaved_inside = 0
-        transient = None; checks = [0]
+        transient = None; checks = [0]; glog = []
         warnings.simplefilter("ignore")
         __import__("logging").disable(50)
         while True:
@@ -305,6 +308,8 @@ def run_case(case):
             cur = nxt
             e = ents[nxt]
             kind, rel, size = e["parked"]
+            if case.get("want_events"):
+                glog.append("%s %s %s %s" % (nxt, kind, _TMPX.sub("T", rel or ""), size))
             h.update(("%s|%s|%s|%s;" % (nxt, kind, _pclass(kind, rel), size)).encode())
             hs.update(("%s|%s|%s;" % (nxt[0], kind, _pclass(kind, rel))).encode())
             nsteps += 1
@@ -375,9 +380,10 @@ def run_case(case):
                                    "sig": {"what": "call_raises", "exc": val[0], "where": where,
                                            "via": next((c for c in chain if c in ("_write_func_code", "cache_validation_callback", "_persist_input", "dump_item", "load_item", "clear")), None)}}
                     elif tag == "get_keyerror":
-                        # a shelved value may be gone when somebody cleared/evicted it meanwhile; recording the
-                        # code of a function whose stored code is missing wipes that function's entries too, so
-                        # without prefill every other user of the same function counts as a potential clearer
+                        # a shelved value may be gone when somebody cleared / evicted it meanwhile.  Besides the explicit
+                        # evictors, a concurrent FIRST user of the same function can wipe the function's directory: it may
+                        # read func_code.py while another actor is writing it in place (empty / partial code looks like a
+                        # source change).  Without prefill every other user of the function is such a potential clearer.
                         others = any(o[0] in ("call", "callcb", "shelve") and o[1] == op[1]
                                      for (a2, t2), e2 in ents.items() if (a2, t2) != (aid, tid)
                                      for o in case["actors"][a2][t2])
@@ -422,7 +428,8 @@ def run_case(case):
                 "switches": switches, "sim_time": 0.0, "faults": dict(faults),
                 "probes": {"preempted_inside_an_operation": interleaved_inside, "final_name_checks": checks[0]},
                 "nontrivial": interleaved_inside >= 2,
-                "sample": {"actors": case["actors"][:3], "strategy": strategy, "grants": nsteps, "killed": killed}}
+                "sample": {"actors": case["actors"][:3], "strategy": strategy, "grants": nsteps, "killed": killed},
+                "events": [(g,) for g in glog], "log": [str(killed)]}
     finally:
         for pid in pids:
             try:
